@@ -3,6 +3,7 @@ package c03
 import (
 	"errors"
 	"fmt"
+	"math"
 	"math/rand"
 	"strconv"
 	"strings"
@@ -516,6 +517,64 @@ func applyOp(t *tree.Tree, op string) (*tree.Tree, error) {
 	case "clearcomments":
 		t.ClearComments()
 		return t, nil
+	case "annotate":
+		if err := need(2); err != nil {
+			return nil, err
+		}
+		var lines [][]string
+		for _, ls := range strings.Split(f[2], "+") {
+			if ls == "" {
+				continue
+			}
+			l, err := parseStrList(ls)
+			if err != nil {
+				return nil, bad("line")
+			}
+			lines = append(lines, l)
+		}
+		return t, t.Annotate(lines, flag(f[1]))
+	case "addlength":
+		if err := need(3); err != nil {
+			return nil, err
+		}
+		x, err := core.ParseRat(f[1])
+		if err != nil {
+			return nil, bad("length")
+		}
+		t.AddLength(x, flag(f[2]), flag(f[3]))
+		return t, nil
+	case "clearpvalues":
+		t.ClearPvalues()
+		return t, nil
+	case "clearnodecomments":
+		t.ClearNodeComments()
+		return t, nil
+	case "clearedgecomments":
+		t.ClearEdgeComments()
+		return t, nil
+	case "cleartermedgecomments":
+		t.ClearTerminalEdgeComments()
+		return t, nil
+	case "scalesupports":
+		if err := need(1); err != nil {
+			return nil, err
+		}
+		x, err := core.ParseRat(f[1])
+		if err != nil {
+			return nil, bad("factor")
+		}
+		t.ScaleSupports(x)
+		return t, nil
+	case "roundsupports":
+		if err := need(1); err != nil {
+			return nil, err
+		}
+		pr, err := strconv.Atoi(f[1])
+		if err != nil {
+			return nil, bad("precision")
+		}
+		t.RoundSupports(pr)
+		return t, nil
 	case "scalelengths", "roundlengths":
 		if err := need(3); err != nil {
 			return nil, err
@@ -544,6 +603,31 @@ func applyOp(t *tree.Tree, op string) (*tree.Tree, error) {
 // of its non-parent neighbours.
 func drawsFor(op string, before *core.N) string {
 	f := strings.Split(op, ":")
+	if len(f) == 3 && f[0] == "rotateone" {
+		// Node.RotateNeighbors on the node at the path: Intn(1) … Intn(number of its neighbours)
+		p, e1 := parsePath(f[1])
+		seed, e2 := strconv.ParseInt(f[2], 10, 64)
+		if e1 != nil || e2 != nil {
+			return ""
+		}
+		x := before
+		for _, i := range p {
+			if i < 0 || i >= len(x.Kids) {
+				return ""
+			}
+			x = x.Kids[i]
+		}
+		nn := len(x.Kids)
+		if len(p) > 0 {
+			nn++
+		}
+		rand.Seed(seed)
+		var out []int
+		for i := 0; i < nn; i++ {
+			out = append(out, rand.Intn(i+1))
+		}
+		return "draws=" + core.IntList(out)
+	}
 	if len(f) != 2 || (f[0] != "rotate" && f[0] != "resolve" && f[0] != "shuffle") {
 		return ""
 	}
@@ -614,6 +698,16 @@ func hasSingles(root *core.N) bool {
 	return false
 }
 
+// hasInnerSingles: a NON-ROOT node with exactly one child (what the property's quantifier excludes for pruning).
+func hasInnerSingles(root *core.N) bool {
+	for _, pn := range allNodes(root) {
+		if len(pn.path) > 0 && len(pn.n.Kids) == 1 {
+			return true
+		}
+	}
+	return false
+}
+
 func subset(g *core.G, xs []string, k int) []string {
 	perm := g.R.Perm(len(xs))
 	if k > len(xs) {
@@ -653,7 +747,7 @@ func startTree(g *core.G) *core.N {
 		o.Singles = 0.15
 	}
 	n, _ := g.Tree(o)
-	if g.Chance(0.05) {
+	if g.Chance(0.08) {
 		// a root with a single neighbour, as the parser delivers for "((a,b),c)r;" read from "(((a,b),c))r;"
 		old := n
 		old.E = core.NewE()
@@ -698,10 +792,11 @@ var opKinds = []string{
 	"reroot", "reroot", "rerootfirst", "outgroup", "outgroup", "midpoint", "unroot", "unroot",
 	"prune", "prune", "prune", "collapselen", "collapsesup", "collapsedepth", "removeedges", "removeedges",
 	"resolve", "resolve", "rotate", "sorttips", "shuffle", "grafttree", "graftedge", "graftedge", "merge",
-	"identical", "removesingle", "nni", "nni", "rename", "renameauto", "renameregex", "addquotes", "rmquotes",
+	"identical", "removesingle", "nni", "nni", "merge", "rename", "renameauto", "renameregex", "addquotes", "rmquotes",
 	"clone", "subtree", "reinit", "nniapply", "nniapply", "nniapply",
 	"reinitinternal", "updatetipindex", "identicalone", "cutedges", "addbip", "addbip",
 	"collapseclade", "resolvenamed", "rotateone", "clearlengths", "clearsupports", "clearcomments", "scalelengths", "roundlengths",
+	"annotate", "annotate", "addlength", "clearpvalues", "clearnodecomments", "clearedgecomments", "cleartermedgecomments", "scalesupports", "roundsupports",
 }
 
 // genOp draws one operation with its arguments, looking at the current tree.
@@ -719,8 +814,15 @@ func genOp(g *core.G, h *history, k int) string {
 			kind = []string{"sorttips", "sorttips", "rotate", "reroot", "rerootfirst", "reinit", "renameregex", "shuffle"}[g.Intn(8)]
 		}
 	}
+	// a root that is a tip is rare (5 % of the start trees, UnRoot of a two-tip tree): pruning it — the root
+	// tip included — is the region of 0cfc52b and gets a branch of its own
+	if len(cur.Kids) == 1 && !hasInnerSingles(cur) && len(tips) > 3 && g.Chance(0.2) {
+		kind = "prune"
+	}
 	// pruning is only required to cope with trees free of single-child inner nodes
-	if kind == "prune" && hasSingles(cur) {
+	// (a root with ONE neighbour is a tip, not a single-child inner node: pruning — of the root tip too,
+	// the case repaired by 0cfc52b — is offered on such trees as long as no inner node has a single child)
+	if kind == "prune" && hasInnerSingles(cur) {
 		kind = "removesingle"
 	}
 	// (RerootOutGroup dereferences a nil node on two-tip trees: the driver counts a panic of an
@@ -784,6 +886,26 @@ func genOp(g *core.G, h *history, k int) string {
 			// keep at least three
 			keep := 3 + g.Intn(n)
 			names = subset(g, tips, keep)
+		}
+		if len(cur.Kids) == 1 && cur.Name != "" && g.Chance(0.5) {
+			// the root is a tip: aim at its removal (removeTip's "the tip is the root itself" branch, 0cfc52b)
+			has := false
+			for _, x := range names {
+				has = has || x == cur.Name
+			}
+			if has == rev {
+				if rev {
+					var kept []string
+					for _, x := range names {
+						if x != cur.Name {
+							kept = append(kept, x)
+						}
+					}
+					names = kept
+				} else {
+					names = append(names, cur.Name)
+				}
+			}
 		}
 		if g.Chance(0.1) {
 			names = append(names, "absent")
@@ -922,6 +1044,15 @@ func genOp(g *core.G, h *history, k int) string {
 		} else {
 			names = subset(g, tips, 1+g.Intn(3))
 		}
+		if g.Chance(0.08) {
+			// the name of a node that is not a tip: no ancestor is found (an error since b687409, F97)
+			for _, pn := range inner {
+				if pn.n.Name != "" {
+					names = append(names, pn.n.Name)
+					break
+				}
+			}
+		}
 		return "collapseclade:" + b2s(g.Chance(0.5)) + ":" + fmt.Sprintf("cc%d", k) + ":" + core.StrList(names)
 	case "rotateone":
 		return fmt.Sprintf("rotateone:%s:%d", pathStr(nodes[g.Intn(len(nodes))].path), g.Intn(1<<30))
@@ -929,6 +1060,73 @@ func genOp(g *core.G, h *history, k int) string {
 		return "clearlengths:" + b2s(g.Chance(0.6)) + ":" + b2s(g.Chance(0.6))
 	case "scalelengths":
 		return "scalelengths:" + []string{"1/2", "2", "3/4", "4"}[g.Intn(4)] /* not 0: -0.5*0 = -0, which a rational cannot carry */ + ":" + b2s(g.Chance(0.7)) + ":" + b2s(g.Chance(0.7))
+	case "annotate":
+		// 1-3 lines: [new, name of a node] or [new, tip, tip, …] (the LCA gets the name / the comment)
+		comment := g.Chance(0.5)
+		renamed := map[string]bool{}
+		var named []string
+		for _, pn := range nodes {
+			if pn.n.Name != "" {
+				named = append(named, pn.n.Name)
+			}
+		}
+		var lines []string
+		for i, nl := 0, 1+g.Intn(3); i < nl; i++ {
+			nw := fmt.Sprintf("a%dx%d", k, i)
+			var names []string
+			if g.Chance(0.5) && len(tips) >= 2 {
+				if len(nonroot) > 0 && g.Chance(0.6) {
+					names = nonroot[g.Intn(len(nonroot))].n.Leaves()
+				} else {
+					names = subset(g, tips, 2+g.Intn(2))
+				}
+			}
+			if len(names) < 2 {
+				old := "absent"
+				if len(names) == 1 {
+					old = names[0]
+				} else if len(named) > 0 && g.Chance(0.9) {
+					old = named[g.Intn(len(named))]
+				}
+				if !comment {
+					renamed[old] = true
+				}
+				lines = append(lines, core.StrList([]string{nw, old}))
+				continue
+			}
+			// a list naming a tip that an earlier line of the same call has renamed finds no ancestor (the index
+			// answers for the old name, the walk compares the new one): an error since b687409 (F97, before: nil
+			// dereference); such lists are offered at a low rate (the history ends there)
+			clash := false
+			for _, x := range names {
+				clash = clash || renamed[x] || x == ""
+			}
+			if clash && !g.Chance(0.3) {
+				continue
+			}
+			lines = append(lines, core.StrList(append([]string{nw}, names...)))
+		}
+		if len(lines) == 0 {
+			return "reinit"
+		}
+		return "annotate:" + b2s(comment) + ":" + strings.Join(lines, "+")
+	case "addlength":
+		// positive dyadic amounts only: sums stay exact and no length can become the sentinel -1
+		return "addlength:" + []string{"1/2", "1", "1/4"}[g.Intn(3)] + ":" + b2s(g.Chance(0.7)) + ":" + b2s(g.Chance(0.7))
+	case "scalesupports":
+		// float64(int(1000000*(s*factor)))/1000000 is exact when s*factor is a multiple of 1/64
+		fs := []string{"1/2", "2", "1/4"}[g.Intn(3)]
+		fv, _ := core.ParseRat(fs)
+		for _, pn := range nonroot {
+			if s := pn.n.E.Sup; s != -1 {
+				if v := s * fv * 64; v != math.Trunc(v) || s < 0 {
+					return "clearpvalues"
+				}
+			}
+		}
+		return "scalesupports:" + fs
+	case "roundsupports":
+		return "roundsupports:0"
 	case "roundlengths":
 		// precision 0 only: other roundings leave the dyadic numbers on which the exact comparison of
 		// later length sums with the models rests (checks/C03.json, assumptions)
